@@ -118,4 +118,72 @@ theorem C13_debug_below_leaves_is_pulled (g : G) (isDebug : Node → Bool) (sel 
   · exact Or.inl hs
   · exact Or.inr ⟨debugPass_complete g isDebug m hd hne g.nodes leaves hm hp, by simpa using hs⟩
 
+/-! ### the pass is a fixpoint: debug nodes below pulled debug nodes are pulled too -/
+
+theorem debugPass_append (g : G) (isDebug : Node → Bool) : ∀ (l1 l2 L : List Node),
+    debugPass g isDebug (l1 ++ l2) L = debugPass g isDebug l2 (debugPass g isDebug l1 L) := by
+  intro l1
+  induction l1 with
+  | nil => intro l2 L; rfl
+  | cons a rest ih =>
+    intro l2 L
+    simp only [List.cons_append, debugPass]
+    split
+    · exact ih l2 _
+    · exact ih l2 _
+
+/-- whatever the pass adds comes from the list it walks -/
+theorem debugPass_mem (g : G) (isDebug : Node → Bool) : ∀ (l L : List Node) (x : Node),
+    x ∈ debugPass g isDebug l L → x ∈ L ∨ x ∈ l := by
+  intro l
+  induction l with
+  | nil => intro L x h; exact Or.inl h
+  | cons a rest ih =>
+    intro L x h
+    simp only [debugPass] at h
+    split at h
+    · rcases ih _ x h with h' | h'
+      · rcases List.mem_append.mp h' with h'' | h''
+        · exact Or.inl h''
+        · simp at h''; subst h''; exact Or.inr (by simp)
+      · exact Or.inr (by simp [h'])
+    · rcases ih _ x h with h' | h'
+      · exact Or.inl h'
+      · exact Or.inr (by simp [h'])
+
+/-- **the pass reaches its fixpoint in ONE walk over the recording order**: a debug node of the graph all of whose (at
+    least one) inputs are in the RESULT — starting nodes or debug nodes pulled before it — is in the result too.  (The
+    recording order is topological and duplicate-free; this is why a single pass is enough, and what a pass that examines a
+    node once BEFORE its debug input was pulled gets wrong.) -/
+theorem debugPass_fixpoint (g : G) (isDebug : Node → Bool) (hnd : g.nodes.Nodup) (ht : TopoL g.preds g.nodes)
+    (L : List Node) (m : Node) (hm : m ∈ g.nodes) (hd : isDebug m = true) (hne : (g.predsIn m).isEmpty = false)
+    (hp : ∀ p ∈ g.predsIn m, p ∈ debugPass g isDebug g.nodes L) :
+    m ∈ debugPass g isDebug g.nodes L := by
+  obtain ⟨pre, post, hsplit⟩ := List.append_of_mem hm
+  -- the inputs of m stand before m
+  have hbefore : ∀ p ∈ g.predsIn m, p ∈ pre := by
+    intro p hpp
+    have hpm : p ∈ g.preds m ∧ p ∈ g.nodes := by
+      simp only [G.predsIn, List.mem_filter, List.contains_eq_mem, decide_eq_true_eq] at hpp; exact hpp
+    exact ht pre m post hsplit p hpm.1 hpm.2
+  -- so they are not in (m :: post)
+  have hnotlater : ∀ p ∈ g.predsIn m, p ∉ m :: post := by
+    intro p hpp hin
+    have hpre := hbefore p hpp
+    rw [hsplit] at hnd
+    have := (List.nodup_append.mp hnd).2.2 p hpre p hin
+    exact this rfl
+  -- split the pass at m
+  have hpass : debugPass g isDebug g.nodes L = debugPass g isDebug (m :: post) (debugPass g isDebug pre L) := by
+    rw [hsplit]; exact debugPass_append g isDebug pre (m :: post) L
+  have hin : ∀ p ∈ g.predsIn m, p ∈ debugPass g isDebug pre L := by
+    intro p hpp
+    have h1 := hp p hpp
+    rw [hpass] at h1
+    rcases debugPass_mem g isDebug (m :: post) _ p h1 with h | h
+    · exact h
+    · exact absurd h (hnotlater p hpp)
+  rw [hpass]
+  exact debugPass_complete g isDebug m hd hne (m :: post) _ (by simp) hin
+
 end GM
